@@ -422,10 +422,55 @@ void World::opBinary(const Step &s)
         return k != FK_MTB;
     });
     if (ca.empty()) { note(OC_SKIP); return; }
-    EdgeSlot &A = *edges[pick(ca, s.a[1])];
+    EdgeSlot* Aptr = edges[pick(ca, s.a[1])];
+    // One arithmetic call in six gets a freshly built neutral / absorbing
+    // element as first operand - a constant 1, 0 or -1, or (relations) that
+    // value on the identity pattern only - in some forest of the same kind,
+    // possibly with another reduction rule than the second operand's: the
+    // inputs the operations' shortcut predicates are written for.
+    if (op > BO_DIFFERENCE && (s.a[4] >> 6) % 6 == 0) {
+        const ForRT &F0 = forests[Aptr->forest];
+        const int fe = pickForest(s.a[3] >> 3, [&](const ForRT &F) {
+            return F.kind() == F0.kind() && F.spec.dom == F0.spec.dom && F.spec.rel == F0.spec.rel;
+        });
+        if (fe >= 0) {
+            ForRT &FE = forests[fe];
+            const Dom &DE = doms[FE.spec.dom].m;
+            Rng RE(s.seed ^ 0xE1);
+            static const long cs[] = { 1, 1, 0, -1 };
+            long c = cs[RE.below(4)];
+            if (FE.kind() == FK_EVP && c < 0) c = 0;
+            const Val cv = (rangeOf(FE.kind()) == Val::R) ? Val::r(double(c)) : Val::n(c);
+            const bool pattern = FE.spec.rel && RE.chance(1, 2) && !cv.same(defaultOf(FE.kind()));
+            EdgeSlot* E = newEdge(s.client, fe);
+            try {
+                if (pattern) {
+                    E->tab = Table::constant(DE, true, defaultOf(FE.kind()));
+                    for (long x = 0; x < DE.N; x++) E->tab.v[size_t(x * DE.N + x)] = cv;
+                    minterm m(FE.f);
+                    for (int k = 1; k <= DE.nvars(); k++) m.setVars(unsigned(k), DONT_CARE, DONT_CHANGE);
+                    m.setValue(toRangeval(FE.kind(), cv));
+                    m.buildFunction(toRangeval(FE.kind(), defaultOf(FE.kind())), *E->e);
+                } else {
+                    E->tab = Table::constant(DE, FE.spec.rel, cv);
+                    FE.f->createConstant(toRangeval(FE.kind(), cv), *E->e);
+                }
+            }
+            catch (MEDDLY::error &e) {
+                failNow("X1", "construct", std::string("building a neutral element threw ") + e.getName());
+                return;
+            }
+            desc << "[first operand " << en(*E) << " = " << cv.str() << (pattern ? " on the identity pattern" : " everywhere") << " in " << fn(fe) << "] ";
+            if (!checkEdge(*E, "I1", "construct", "neutral element")) return;
+            stats.fired["neutral_operand"]++;
+            Aptr = E;
+        }
+    }
+    EdgeSlot &A = *Aptr;
     ForRT &FA = forests[A.forest];
     std::vector<size_t> cb = edgesWhere([&](const EdgeSlot &e) {
         if (e.forest < 0 || !forests[e.forest].alive) return false;
+        if (&e == Aptr) return false;
         const ForRT &FB = forests[e.forest];
         if (FB.spec.dom != FA.spec.dom || FB.spec.rel != FA.spec.rel) return false;
         if (FB.kind() == FK_IDX) return false;
